@@ -260,9 +260,10 @@ class Flow:
         if v is None: e.pop(dl, None)
         else: e[dl] = v
 
-    def outcomes(self, starts, stop=(), env=None):
-        """kinds of exits ('ok' | 'err' | 'unknown') reachable from the blocks `starts` without entering `stop`"""
-        key = (tuple(starts), frozenset(stop), frozenset((env or {}).items()))
+    def outcomes(self, starts, stop=(), env=None, assume=None, cut=()):
+        """kinds of exits ('ok' | 'err' | 'unknown') reachable from the blocks `starts` without entering `stop`.
+        assume = {block of a call: variant its result is taken to have}; cut = edges (from block, to block) not taken"""
+        key = (tuple(starts), frozenset(stop), frozenset((env or {}).items()), frozenset((assume or {}).items()), frozenset(cut))
         if key in self._memo: return self._memo[key]
         b = self.b; out = set(); seen = set()
         work = [(s, frozenset((env or {}).items())) for s in starts if s not in stop]
@@ -281,6 +282,7 @@ class Flow:
                 continue
             if k == 'call':
                 self._call(e, self.callmap.get(bi) or facts_call(bi, t))
+                if assume and bi in assume and not t['dst']['p']: e[t['dst']['l']] = assume[bi]
             elif k == 'switch' and t['d']['k'] != 'const' and not t['d']['pl']['p']:
                 v = e.get(t['d']['pl']['l'])
                 n = (1 if v else 0) if isinstance(v, bool) else v[1] if isinstance(v, tuple) else None
@@ -289,7 +291,7 @@ class Flow:
                     succs = [m.get(n, t['else'])]
             fe2 = frozenset(e.items())
             for s in succs:
-                if s in stop or b.blocks[s]['cleanup']: continue
+                if s in stop or (bi, s) in cut or b.blocks[s]['cleanup']: continue
                 work.append((s, fe2))
         self._memo[key] = out
         return out
@@ -333,8 +335,27 @@ def guard_holds(body, call, polarity):
         req, oth = (t, f) if polarity else (f, t)
         if req is None or oth is None: continue
         if fl.may_succeed([req]) and fl.outcomes([oth]) == {'err'} and not fl.may_succeed([0], stop={sb}):
+            GUARD_EDGES[(body.name, sb)] = (sb, oth)
             return sb
     return None
+
+
+GUARD_EDGES = {}        # (function, switch block of a guard that holds) -> its rejecting edge
+
+
+def only_fails_by(ctx, rule, body, calls, guards, what):
+    """T-ERRFLOW, the converse of `propagates`: the function has no OTHER cause of failure than the given fallible calls
+    and the rejecting side of the given guards.  Taking every such call to succeed and not taking the rejecting edges, no
+    Err exit is reachable (checks added after decoding -- re-encoded length, "canonical" form, non-empty -- are reported)."""
+    fl = flow(body)
+    assume = {}
+    for c in calls:
+        fam = ty_family(body.locals[c.dst['l']]) if not c.dst['p'] else None
+        if fam: assume[c.bb] = fam[0]
+    cut = {GUARD_EDGES[(body.name, sb)] for sb in guards if (body.name, sb) in GUARD_EDGES}
+    out = fl.outcomes([0], assume=assume, cut=cut)
+    ctx.counters['cfg_paths'] += 1
+    ctx.check('err' not in out, rule, 'T-ERRFLOW', body.name, 'the function can fail although %s' % what, body.site(), outcomes=sorted(out))
 
 
 def media_fns(body, operand):
@@ -402,6 +423,17 @@ VIEW_OF = re.compile(r'::(as_ref|as_mut|deref|deref_mut|borrow|borrow_mut|as_sli
                      r'as std::ops::Index(Mut)?<std::ops::RangeFull>>::index(_mut)?$')          # only the full range: &v[1..] is another value
 
 
+def mutations_of(body, locals_):
+    """places where one of the given locals (or a part of it, or what it points to) is written or mutably borrowed:
+    `x.f = ..`, `&mut x`, `&mut x.f` (x.f.sort(), mem::take(&mut x.f), x.f.push(..)), raw pointers"""
+    out = []; ls = set(locals_)
+    for bi, st in body.stmts():
+        d = st['dst']; rv = st['rv']
+        if d['l'] in ls and d['p']: out.append((bi, 'write to a part of _%d' % d['l']))
+        if rv['k'] in ('ref', 'rawptr') and (rv.get('mut') or rv['k'] == 'rawptr') and rv['pl']['l'] in ls: out.append((bi, 'mutable borrow of _%d' % rv['pl']['l']))
+    return out
+
+
 def root_param(body, operand):
     """number of the parameter the operand is (a view / copy of), as a whole; None otherwise"""
     if operand['k'] not in ('copy', 'move'): return None
@@ -409,7 +441,7 @@ def root_param(body, operand):
     return l if (1 <= l <= body.argc and not proj) else None
 
 
-def origin(body, pl, depth=40):
+def origin(body, pl, depth=40, trail=None):
     """where the value of a place comes from: (local, projections) after following, backwards, plain
     moves/copies/borrows, transparent calls (`as_slice`, `deref`, `as_ref`, `?`), and the construction
     of tuples / Ok / Some / Continue values the projection selects a component of.  A local built on
@@ -417,6 +449,7 @@ def origin(body, pl, depth=40):
     definitions `x = Continue(..)` (the `?` of a spliced closure, a helper's `Ok((a, b))`)."""
     l = pl['l']; proj = [p for p in pl['p'] if p != '*']
     for _ in range(depth):
+        if trail is not None: trail.append(l)
         if 1 <= l <= body.argc: break
         defs = [d for d in body.defs_of(l) if not (d[0] == 'stmt' and d[2]['dst']['p'])]
         want = proj[0]['dc'] if proj and isinstance(proj[0], dict) and 'dc' in proj[0] else None
@@ -613,6 +646,17 @@ def kinds_rules(ctx):
             # the encoded value is the message parameter itself and is encoded as its own type
             good = [c for c in enc if root_param(b, c.args[0]) == 2 and same_ty(b.locals[2], msg) and message_type_is(b, c, msg)]
             ctx.check(bool(good), R + '/%s/add/encodes-message' % kind, 'T-SIBLING', b.name, 'the stored blob is not the encoding of the given %s' % msg, b.site())
+            # ... of the message AS GIVEN: between the parameter and the encoder nothing writes to it, borrows it (or a field)
+            # mutably, or rebuilds it (sorting its lists "canonically", clearing a field, mem::take).  Every local the value
+            # passes through on the way to the encoder is looked at, and the locals holding plain copies / borrows of them.
+            touched = []
+            for c in good:
+                trail = []
+                origin(b, c.args[0]['pl'], trail=trail)
+                held = set(trail)
+                for l in list(held): held |= T.copies_of(b, l)
+                touched += mutations_of(b, {l for l in held if not b.locals[l].startswith('&mut')} | {2})
+            ctx.check(bool(good) and not touched, R + '/%s/add/message-unchanged' % kind, 'T-CARRY', b.name, ('the %s is modified before it is encoded: %s' % (msg, sorted({w for _, w in touched}))) if good else 'no encoder is applied to the given %s itself' % msg, b.site(touched[0][0]) if touched else b.site())
             al = [c for c in b.calls if c.item == 'add_layer' and 'OciArtifactBuilder' in c.name]
             okl = bool(al)
             for c in al:
@@ -635,12 +679,14 @@ def kinds_rules(ctx):
             ctx.check(bool(used) and all(root_param(g, l.args[1]) == 2 for l in used), R + '/%s/get/by-digest' % kind, 'T-CARRY', g.name, 'layer is not looked up by the given digest', g.site())
             propagates(ctx, R + '/%s/get/unknown-digest-error' % kind, g, gl, 'get_layer')
             # media type guard: <descriptor of the looked-up layer>.media_type() == media_types::v1_K()
-            okg = False
+            okg = False; guard_sbs = []
             for c in eq_tests(g):
                 sides = [(T.expr(g, a), a) for a in c.args]
                 mts = [m for e, a in sides for m in media_fns(g, a)]
                 desc = any(T.expr_has_call(e, 'media_type') and any(l in ctx.S.slice_operand(g, a).call_objs for l in used) for e, a in sides)
-                if mts == [mt] and desc and guard_holds(g, c, c.item == 'eq') is not None: okg = True
+                if mts == [mt] and desc:
+                    sb = guard_holds(g, c, c.item == 'eq')
+                    if sb is not None: okg = True; guard_sbs.append(sb)
             ctx.check(okg, R + '/%s/get/media-type-guard' % kind, 'T-GUARD', g.name, 'a layer of another media type is not rejected (expected desc.media_type() == media_types::%s())' % mt, g.site())
             # the returned message is the layer's blob decoded as T_K
             pay = ok_payloads(g)
@@ -656,6 +702,8 @@ def kinds_rules(ctx):
                 if from_layer and returned and message_type_is(g, d, msg, value_local=d.dst['l']) and g.locals[0].startswith('std::result::Result<(%s, ' % msg): okd = True
             ctx.check(okd, R + '/%s/get/decodes-message' % kind, 'T-SIBLING', g.name, 'the blob of the layer is not decoded as %s' % msg, g.site())
             propagates(ctx, R + '/%s/get/decode-error' % kind, g, dec, 'decode')
+            # reading succeeds whenever the layer exists, has the kind's media type and decodes: no further cause of failure
+            only_fails_by(ctx, R + '/%s/get/only-expected-errors' % kind, g, gl + dec, guard_sbs, 'the layer is found, has media type %s and decodes as %s' % (mt, msg))
             okf = any(any(l in ctx.S.slice_operand(g, c.args[0]).call_objs for l in used) and bool(pay) and all(c in ctx.S.slice_operand(g, p).call_objs for p in pay) for c in fd)
             ctx.check(okf, R + '/%s/get/annotations' % kind, 'T-SIBLING', g.name, 'annotations are not read from the layer\'s descriptor as %s' % ann, g.site())
     # list readers: every layer of the kind's media type, decoded, with its own descriptor, in order
@@ -687,6 +735,8 @@ def kinds_rules(ctx):
                         if sink.bb in yr and sink.bb not in nr and sink.bb not in around: okg = (lo, yes)
         ctx.check(bool(okg), R + '/%s/filter' % fn, 'T-SIBLING', g.name, 'does not decode exactly the layers of media type %s as %s' % (mt, msg), g.site())
         propagates(ctx, R + '/%s/decode-error' % fn, g, dec, 'decode')
+        listing = [c for c in g.calls if c.item == 'get_layers' and 'OciArtifact' in c.name]
+        only_fails_by(ctx, R + '/%s/only-expected-errors' % fn, g, listing + dec, [], 'the layers can be listed and every layer of media type %s decodes as %s' % (mt, msg))
         if not chain:
             # fail closed: the per-layer conditions cannot be placed
             ctx.bad(R + '/%s/every-match-kept' % fn, 'T-LOOPMUST', g.name, 'no loop over OciArtifact::get_layers() in which a layer is decoded as %s' % msg, g.site())
@@ -908,22 +958,26 @@ MAP_WRITES = {'insert': (1, 2),            # map.insert(k, v); extend([(k, v)]) 
 ENTRY_INSERT = re.compile(r'hash_map::(Entry|VacantEntry)|btree_map::(Entry|VacantEntry)')      # VacantEntry::insert(v): (0, 1)
 
 
-def stores(ctx, body, is_key, is_val, depth=3):
+def stores(ctx, body, is_key, is_val, depth=3, sites=None):
     """the function writes a pair (k, v) into a map with is_key(body, operand of k) and is_val(body, operand of v):
     directly (table MAP_WRITES), or by passing them on to a function of the crate that does (an existing setter such
     as `set_other(key, value)` reused; positions are followed through the callee's parameters)"""
     for c in body.calls:
         if c.item in MAP_WRITES and MAP_TYPES.search(c.name):
             ki, vi = (0, 1) if (c.item == 'insert' and ENTRY_INSERT.search(c.name)) else MAP_WRITES[c.item]
-            if max(ki, vi) < len(c.args) and is_key(body, c.args[ki]) and is_val(body, c.args[vi]): return True
+            if max(ki, vi) < len(c.args) and is_key(body, c.args[ki]) and is_val(body, c.args[vi]):
+                if sites is None: return True
+                sites.append(c)
         elif depth > 0:
             cb = ctx.F.bodies.get(c.path) or ctx.F.bodies.get(c.name)
             if cb is None or cb.kind != 'fn' or cb.argc != len(c.args) or is_derive_body(cb): continue
             def through(pred, c=c):
                 # the callee's operand derives from a parameter whose argument satisfies the caller's predicate
                 return lambda b2, op: any(1 <= p <= len(c.args) and pred(body, c.args[p - 1]) for p in ctx.S.slice_operand(b2, op).params if p != 1 or not mutlike_self(b2))
-            if stores(ctx, cb, through(is_key), through(is_val), depth - 1): return True
-    return False
+            if stores(ctx, cb, through(is_key), through(is_val), depth - 1):
+                if sites is None: return True
+                sites.append(c)
+    return bool(sites)
 
 
 def mutlike_self(body):
@@ -1096,6 +1150,33 @@ def annotation_rules(ctx, repo):
                 sp = sorted({const_of(gb, c.args[1]) for c in gb.calls if c.item == 'split' and len(c.args) > 1} - {None})
                 okj = len(js) == 1 and js == sp
                 ctx.check(okj, R + '/%s/authors/separator' % ty, 'T-CONST', sb.name, 'authors are joined with %s but split with %s' % (js, sp), sb.site())
+        # user-defined keys: set_other(key, value) stores exactly (key, value), for every key a user may choose.  ARTIFACT.md:
+        # "Users can add arbitrary annotation to arbitrary layer. `org.ommx.user.` prefix is reserved for user-defined annotations."
+        # and "The key may not start with `org.ommx.v1.`": so the only keys a check may refuse are those under the documented
+        # reserved prefix; every way past the insert must be behind `key.starts_with(P)` with P inside that namespace.
+        ob = meths.get('set_other')
+        if ob is not None:
+            ctx.fn(ob)
+            sites = []
+            stores(ctx, ob, lambda body, op: body is ob and root_param(body, op) == 2, lambda body, op: body is ob and root_param(body, op) == 3, sites=sites)
+            m = re.search(r'may not start with `([^`]+)`', doc)
+            reserved = m.group(1) if m else 'org.ommx.v1.'
+            refused = set()
+            for c in ob.calls:
+                if c.item == 'starts_with' and re.search(r'\bstr>::starts_with', c.name) and len(c.args) == 2 and root_param(ob, c.args[0]) == 2:
+                    pat = text_of(ctx, T.expr(ob, c.args[1]))
+                    if pat is not None and pat.startswith(reserved):
+                        for sb_, neg in T.bool_flow(ob, c.dst['l']): refused.add((sb_, T.switch_sides(ob, sb_, neg)[0]))     # the edge "key is reserved"
+            # is the exit reachable without the insert and without taking a "key is reserved" edge?  (edges, not blocks: `a || b` shares the target)
+            stop = {c.bb for c in sites}; seen = {0}; work = [] if 0 in stop else [0]; bypass = False
+            while work and sites:
+                x = work.pop()
+                if ob.blocks[x]['term']['k'] == 'return': bypass = True; break
+                for y in ob.succ(x):
+                    if y in seen or y in stop or (x, y) in refused or ob.blocks[y]['cleanup']: continue
+                    seen.add(y); work.append(y)
+            ctx.check(bool(sites) and not bypass, R + '/%s/set_other/stores' % ty, 'T-MUSTCALL', ob.name,
+                      'no insert of (key, value) as given' if not sites else 'a key outside the reserved namespace `%s` can be dropped: the exit is reachable without the insert' % reserved, ob.site())
         # the private `get(key)` the accessors read through returns the stored text of exactly that key
         hb = meths.get('get')
         if hb is not None:
@@ -1123,4 +1204,4 @@ def check(ctx):
     finally:
         ctx.F, ctx.S = F0, S0
     # floors = rule instances decided on the pinned tree
-    ctx.floor('C20.kinds', 44); ctx.floor('C20.types', 18); ctx.floor('C20.digest', 3); ctx.floor('C20.annotations', 92)
+    ctx.floor('C20.kinds', 54); ctx.floor('C20.types', 18); ctx.floor('C20.digest', 3); ctx.floor('C20.annotations', 96)
